@@ -140,6 +140,26 @@ func (rd *realDecoder) getCompactArrayLength() (int, error) {
 	return int(n) - 1, nil
 }
 
+// getCompactNullableArrayLength returns -1 for a null array.
+func (rd *realDecoder) getCompactNullableArrayLength() (int, error) {
+	n, err := rd.getUVarint()
+	if err != nil {
+		return -1, err
+	}
+
+	if n == 0 {
+		return -1, nil
+	}
+
+	// every element takes at least one byte
+	if n-1 > uint64(rd.remaining()) {
+		rd.off = len(rd.raw)
+		return -1, ErrInsufficientData
+	}
+
+	return int(n) - 1, nil
+}
+
 func (rd *realDecoder) getBool() (bool, error) {
 	b, err := rd.getInt8()
 	if err != nil || b == 0 {
